@@ -1,6 +1,7 @@
 import Gedcom.Model.Similarity
 import Driver.Util
-namespace Driver
+namespace Driver.SimH
+open Driver
 open Gedcom Gedcom.Sim
 
 /-! Requests about similarity scores (C12).  Token formats (no spaces inside a token):
@@ -122,6 +123,11 @@ def tightSurround (x y : Surround) (o : SimOpts) : Bool :=
     (o.minimumWeightedSimilarity - o.parentsWeight - o.spousesWeight - o.childrenWeight) ||
   tightList x.spouses y.spouses o || tightList x.children y.children o ||
   x.parents.any fun p => y.parents.any fun q => tightFam p q o
+
+end Driver.SimH
+
+namespace Driver
+open Driver.SimH Gedcom Gedcom.Sim
 
 def handleSimilarity (cmd : String) (rest : List String) : Option String :=
   match cmd with
